@@ -61,6 +61,9 @@ pub struct WorldCfg {
     /// run the TA proxy only; the signer is a separate installation
     #[serde(default)]
     pub remote_signer: bool,
+    /// `suspend_child_after_inactive_hours` (krill's minimum is 48)
+    #[serde(default)]
+    pub suspend_hours: Option<u32>,
 }
 
 impl Default for WorldCfg {
@@ -93,6 +96,7 @@ impl Default for WorldCfg {
             ta_msg_valid_days: 14,
             num_threads: 2,
             remote_signer: false,
+            suspend_hours: None,
         }
     }
 }
@@ -145,6 +149,7 @@ rrdp_delta_files_min_seconds = {dmins}
 rrdp_delta_files_max_seconds = {dmaxs}
 rrdp_delta_interval_min_seconds = {dint}
 rrdp_files_archive = {darch}
+{suspend}
 {extra}
 [ta_timing]
 mft_next_update_weeks = {tam}
@@ -156,6 +161,7 @@ signed_message_validity_days = {tad}
             log_level = std::env::var("KVH_LOG").unwrap_or("off".into()),
             history_cache = self.history_cache,
             ta_signer = !self.remote_signer,
+            suspend = self.suspend_hours.map(|h| format!("suspend_child_after_inactive_hours = {h}")).unwrap_or_default(),
             num_threads = self.num_threads,
             agg = self.agg,
             deagg = self.deagg,
